@@ -79,6 +79,17 @@ fn main() {
                 eprintln!("usage: vcheck fuzz-replay <Cxx> <artifact>");
                 std::process::exit(2);
             };
+            if sfverif::fuzzdec::SINGLE_PROPS.contains(&prop.as_str()) {
+                // fz_single: the artifact names its own clause
+                let bytes = std::fs::read(art).unwrap_or_default();
+                let Some((clause, case)) = sfverif::fuzzdec::decode_single(prop, &bytes) else {
+                    eprintln!("HARNESS-ERROR: artifact does not decode to a case");
+                    std::process::exit(2);
+                };
+                let rec = runner::FailureRec { clause, sig: "fuzz".into(), msg: format!("decoded from libFuzzer artifact {art}"), case };
+                let path = runner::write_replay(&opts.verif_dir, prop, &rec);
+                std::process::exit(runner::replay(&path, &opts));
+            }
             let clause = match prop.as_str() {
                 "C15" => "C15/chains/relassert",
                 "C08" => "C08/chains/generated",
